@@ -28,6 +28,11 @@ MCArgs(name, h, dep) ==
     [] name = "CvClean" -> {[obj |-> "a", which |-> "all"]}
     [] name = "CvSetCtrlpoints" -> {[obj |-> "a", points |-> Gen2(n)], [obj |-> "a", points |-> Gen2(n + 1)],
                                     [obj |-> "a", points |-> Gen2(n - 1)]}
+    [] name = "CvSetWeights" -> {[obj |-> "a", weights |-> WGen1(n)], [obj |-> "a", weights |-> WGen1(n + 1)]}
+                                \* a sign change of continuous weights is a zero of the weight function
+                                \cup (IF n >= 2 /\ Deg(U) >= 1 /\ \A x \in InteriorSet(U) : MultOf(U, x) <= Deg(U)
+                                      THEN {[obj |-> "a", weights |-> [i \in 1..n |-> IF i = 1 THEN R(-1) ELSE One]]} ELSE {})
+                                \cup (IF n >= 2 THEN {[obj |-> "a", weights |-> WGen1(n - 1)]} ELSE {})
     [] name = "CvSetKnotvector" -> {[obj |-> "a", kv |-> SortedUnion(U, <<x>>)] : x \in Midpoints(U)}
                                    \cup {[obj |-> "a", kv |-> ShiftKV(U, One).kv]}
     [] name = "CvEval" -> {[obj |-> "a", nodes |-> SeqOfSet(ParamGrid(U, 0)), scalar |-> FALSE, form |-> "tuple"],
